@@ -60,6 +60,7 @@ def run(chk):
     rule_unimpl(chk, reach)
     rule_arith(chk, reach)
     rule_macro(chk)
+    rule_error_slices(chk)
     rule_loop(chk)
     import c16
     import interp
@@ -320,13 +321,29 @@ def rule_macro(chk):
                "the recursive expansion of a macro body is no longer bracketed by macro_disabled[i] = true ... = false "
                "(self-referential macros would recurse without bound) [stores: %s]" % [(v, ln) for _, v, ln in stores], where(asm),
                sample={"true_store": t_st[:1], "false_store": f_st[:1]})
-        # inner recursion on arguments uses a fresh disabled vector (apply_macros) - fine; the body expansion passes the same vector
         if rec:
             a = rec[0][1]["args"]
             p = M.op_place(a[2]) if len(a) > 2 else None
             same = p is not None and md and md[0] in cfg.slice([M._place_local(p)], through_calls=False).locals | {M._place_local(p)}
             chk.ob("C08.macro/shared-disable-state", bool(same), "the body is rescanned with the same macro_disabled state" if same else
                    "the rescan of the macro body does not receive the caller's macro_disabled state", where(asm))
+        # every re-entry into the expander from here (body rescan, expansion of the arguments) carries the disabled set
+        cg = M.CallGraph(f)
+        md_ids = {p_["id"] for p_ in F.walk(asm["thir"]) if isinstance(p_, dict) and p_.get("k") == "Var" and p_.get("name") == "macro_disabled" and not p_.get("upvar")}
+        reenter = []
+        for b in [asm] + f.closures_of(asm["path"]):
+            for c in F.exprs(b["thir"], "Call"):
+                callee = c.get("rfn") or c.get("fn")
+                if not callee or callee not in f.bodies or asm["path"] not in cg.reachable([callee]):
+                    continue
+                carried = any(isinstance(x, dict) and x.get("k") == "Var" and x.get("id") in md_ids for a_ in c.get("args", []) for x in F.walk(a_))
+                reenter.append((short(callee), carried, c.get("ln")))
+        lost = [r for r in reenter if not r[1]]
+        chk.ob("C08.macro/arguments-keep-disabled", bool(reenter) and not lost,
+               "all %d re-entries into the expander (body rescan, argument expansion) receive the caller's macro_disabled set" % len(reenter) if reenter and not lost else
+               "apply_single_macro re-enters the expander through %s without its macro_disabled set: a macro that is being expanded is expanded again inside the arguments of a "
+               "function-like macro (#define F(x) x / #define A F(A) / A never terminates)" % sorted({r[0] for r in lost}), where(asm),
+               sample={"re_entries": [(r[0], r[1]) for r in reenter]})
         # arity guard before args[i]
         errs = [i for i, j, s in cfg.stmts(lambda s: s.get("r") == "Agg" and s.get("variant") == "MacroExpectsDifferentNumberOfArguments")]
         chk.ob("C08.macro/arity-guard", len(errs) >= 2, "argument count mismatches are rejected before substitution (%d sites)" % len(errs) if len(errs) >= 2 else
@@ -357,6 +374,37 @@ def rule_macro(chk):
             ok = all(s not in reach for s in sites)
         chk.ob("C08.macro/skip-disabled", ok, "FoundMacro::User is returned only for macros whose disabled flag is false" if ok else
                "find_single_macro can return a macro whose macro_disabled flag is set (recursive macros expand forever)", where(fsm))
+
+
+def rule_error_slices(chk):
+    """A belief and a producer that contradicts it: assertions that the slice carried by a lexer error lies inside the
+    input (pointer-range comparisons) against error constructors that carry a slice from elsewhere (end_of_stream()
+    carries a literal empty slice). Either no constructor does that, or every such assertion lets the empty slice through."""
+    f = chk.facts
+    PP = "rssl_preprocess"
+    foreign, asserts = [], []
+    for b in f.bodies.values():
+        if b.get("crate") != PP or "thir" not in b:
+            continue
+        for a in F.exprs(b["thir"], "Adt"):
+            if short(a.get("adt") or "") != "LexErrorContext":
+                continue
+            f0 = [x["e"] for x in a.get("fields", []) if x.get("f") == "0"]
+            if f0 and not any(isinstance(x, dict) and x.get("k") in ("Var", "Field", "Index", "Call") for x in F.walk(f0[0])):
+                foreign.append((b, a))
+        for e in F.exprs(b["thir"], "If"):
+            if not e.get("mac") or "assert" not in str(e.get("mac")):
+                continue
+            calls = [short(c.get("fn") or "") for c in F.exprs(e.get("cond"), "Call")]
+            if "as_ptr_range" in calls:
+                asserts.append((b, e, "is_empty" in calls or "len" in calls))
+    strict = [(b, e) for b, e, esc in asserts if not esc]
+    ok = not (foreign and strict)
+    chk.ob("C08.lexer/error-slice-provenance", ok,
+           "%d lexer error constructor(s) carry a slice that is not part of the input; the %d pointer-range assertions on error slices all let an empty slice through" % (len(foreign), len(asserts))
+           if ok else "%s asserts that the slice of a lexer error lies inside the input (pointer ranges), but %s builds the error with a slice from elsewhere: input that ends inside a token "
+           "(an unterminated /* comment, `0x` at the end of the file) panics in builds with debug assertions" % (short(strict[0][0]["path"]), short(foreign[0][0]["path"])),
+           where(strict[0][0], strict[0][1]) if strict else PP, sample={"foreign_constructors": len(foreign), "pointer_assertions": len(asserts), "unguarded": len(strict)})
 
 
 def rule_combinators_eval(chk, plb, po):
